@@ -164,7 +164,16 @@ def _plan(run, P):
                     return bool(stored) and all(is_sorted(x_) for x_ in stored)
                 return None
             verdicts = [is_sorted(v) for v in srcs]
-            if srcs and all(v is True for v in verdicts):
+            is_param = it.id in fn.params or (fn.parent is not None and it.id in fn.parent.params)
+            if is_param:
+                # what the caller hands in arrives as it is unless it is re-bound, sorted,
+                # by a statement every path runs through
+                owner = fn if it.id in fn.params else fn.parent
+                uncond = [s_ for s_ in owner.node.body if isinstance(s_, ast.Assign)
+                          and any(isinstance(t_, ast.Name) and t_.id == it.id for t_ in s_.targets)
+                          and is_sorted(s_.value) is True]
+                ok = bool(uncond)
+            elif srcs and all(v is True for v in verdicts):
                 ok = True
             elif not srcs or any(v is None for v in verdicts):
                 raise AnalysisError(f"update_plan: where {it.id} of 'for {norm(lp.target)} in "
